@@ -153,6 +153,43 @@ partial def itercLoop (h : IO.FS.Stream) (c : CIter) : IO Unit := do
   IO.println s!"{op} => {out}"
   itercLoop h c'
 
+
+/-- one line of the `fiter` stream: iterator histories with allocation faults (f=1: an allocation
+    failed during this call) -/
+def fiterLine (st : Iter) (op : String) : Iter × String :=
+  match (op.splitOn " ").filter (· ≠ "") with
+  | ["arm", _] => (st, "armed")
+  | ["disarm"] => (st, "disarmed")
+  | ["next", f, k] =>
+    match kv f, kv k with
+    | some f, some k =>
+      let r := if f = 1 then st.nextFault (nextEnv st k) k else st.next (nextEnv st k) k
+      match r with
+      | (.ok v, st') => (st', s!"v={v} " ++ iterState st')
+      | (.error e, st') => (st', s!"v=ERR:{errName e} " ++ iterState st')
+    | _, _ => (st, "bad-op")
+  | ["prev", f, _] =>
+    match kv f with
+    | some f =>
+      if f = 1 then
+        match st.prevFault (prevEnv st) with
+        | (.ok v, st') => (st', s!"v={v} " ++ iterState st')
+        | (.error e, st') => (st', s!"v=ERR:{errName e} " ++ iterState st')
+      else
+        let r := st.prev (prevEnv st)
+        (r.2, s!"v={r.1} " ++ iterState r.2)
+    | none => (st, "bad-op")
+  | _ => iterLine st op
+
+partial def fiterLoop (h : IO.FS.Stream) (st : Iter) : IO Unit := do
+  let line ← h.getLine
+  if line.isEmpty then return ()
+  let line := line.trimAscii.toString
+  let op := (line.splitOn " => ").headD ""
+  let (st', out) := fiterLine st op
+  IO.println s!"{op} => {out}"
+  fiterLoop h st'
+
 /-- EratCfg with the double-precision products evaluated as in C++ -/
 def floatCfg (l1 : Nat) : EratCfg :=
   { l1CacheSize := l1
@@ -408,6 +445,7 @@ def main (args : List String) : IO UInt32 := do
     | "cfg" => lineLoop s cfgLine; return 0
     | "multi" => multiLoop s (Array.replicate 8 (Iter.mk' 0 umax)); return 0
     | "iterc" => itercLoop s CIter.init; return 0
+    | "fiter" => fiterLoop s (Iter.mk' 0 umax); return 0
     | "bench" =>
       let n := (← IO.FS.readFile file).trimAscii.toString.toNat?.getD 1000
       let t00 ← IO.monoMsNow
